@@ -27,8 +27,8 @@ RULE = ("pairs of generated modules (input: class with annotated attributes, fun
         "template present/absent x --input-eval; a case = one invocation; distinct by content digest; non-trivial = the "
         "command accepted the paths")
 REQUIRED_MONITORS = ("sync_properties.run", "masked-ast.compared", "location.checked", "input.unchanged.checked")
-ASSUMPTIONS = ["paths the lookup rejects (non-zero exit, output untouched) are counted as rejected; > 50% rejections "
-               "make the run inconclusive",
+ASSUMPTIONS = ["every generated request names locations that exist: a command that fails is a deviation (with the output "
+               "file required to be untouched), not a rejected case",
                "input properties are annotated class attributes / annotated parameters; eval inputs are top-level "
                "list/tuple values"]
 TYPES = ("int", "float", "str", "bool", "Optional[int]", "Optional[str]", "List[int]", "Literal['a', 'b']")
